@@ -120,6 +120,9 @@ pub struct WorkerResult {
 /// worker stack: ArrayBuf<1500000> and a few copies of it fit, 70 000 nested calls do not
 pub const STACK_BYTES: usize = if cfg!(debug_assertions) { 48 << 20 } else { 64 << 20 };
 
+/// the stack the worker thread of this process really got (set by `main`)
+pub static STACK_USED: std::sync::atomic::AtomicUsize = std::sync::atomic::AtomicUsize::new(0);
+
 /// true in the unoptimised build of the simulator (`cargo build` without `--release`)
 pub fn unoptimised_build() -> bool {
     cfg!(debug_assertions)
@@ -759,7 +762,11 @@ pub fn check(prop: &dyn Prop, o: &CheckOpts) -> CheckReport {
                 "violation_signatures": sig_counts,
                 "components_real_code": COMPONENTS_REAL,
                 "components_stub": COMPONENTS_STUB,
-                "build": if unoptimised_build() { "unoptimised (opt-level 0, debug assertions, 48 MiB worker stack)" } else { "release (opt-level 3, overflow checks, 64 MiB worker stack)" },
+                "build": format!(
+                    "{}, {} MiB worker stack",
+                    if unoptimised_build() { "unoptimised (opt-level 0, debug assertions, overflow checks)" } else { "release (opt-level 3, overflow checks)" },
+                    STACK_USED.load(std::sync::atomic::Ordering::Relaxed) >> 20
+                ),
                 "unoptimised_build_batch": unopt_summary,
             }
         });
